@@ -556,7 +556,7 @@ func writeEvidence(prop, tierName string, tier int, seed int64, solver string, l
 			"int is 64 bit; integer arithmetic is modelled bit-precisely with wrap-around",
 			"intrinsics: bytes.IndexByte/Equal/EqualFold (ASCII folding), math/rand (arbitrary values), sync.Pool and the generic gobwas/pool.Pool (Get returns the item most recently Put, else New()/nil), gobwas/pool pbytes/pbufio (fresh buffers with arbitrary content, release tracking), fmt.Errorf/Sprintf (concrete rendering), crypto/sha1 on concrete data",
 			"transports, destinations and callbacks are harness stubs constrained only by the io.Reader/io.Writer contracts",
-			"compress/flate, crypto/tls, net/http parsers, the Go scheduler and GC are not modelled",
+			"crypto/tls, net/http parsers, the Go scheduler and GC are not modelled; compress/flate is executed from its own SSA form where its control flow does not depend on symbolic data (stored mode, inputs of <= 3 arbitrary bytes), its compressing levels are outside reach",
 		},
 	}
 	os.MkdirAll(filepath.Join(verifDir, "evidence"), 0755)
